@@ -115,7 +115,7 @@ func TestVerifReplay(t *testing.T) {
 			t.Errorf("unknown harness %%s", r.Harness)
 			continue
 		}
-		verifCur, verifFailed, verifObserved, verifReached = r, nil, nil, nil
+		verifCur, verifFailed, verifObserved, verifReached, verifKnownOn, verifKnownBad = r, nil, nil, nil, "", nil
 		pmsg := func() (msg string) {
 			defer func() {
 				if p := recover(); p != nil {
@@ -129,7 +129,7 @@ func TestVerifReplay(t *testing.T) {
 			h()
 			return ""
 		}()
-		out := map[string]interface{}{"failed": verifFailed, "observed": verifObserved, "reached": verifReached, "panic": pmsg}
+		out := map[string]interface{}{"failed": verifFailed, "observed": verifObserved, "reached": verifReached, "panic": pmsg, "known_failed": verifKnownBad}
 		b, _ := json.Marshal(out)
 		os.WriteFile(f+".native", b, 0644)
 	}
@@ -222,13 +222,13 @@ def run_check(pid, tier):
         for k, w in enumerate(jo.get("witnesses") or []):
             f = os.path.join(replay_dir, "%s-w%d.json" % (jo["id"], k))
             json.dump({"property": pid, "harness": jo["func"], "package": jo["package"], "params": jo["params"],
-                       "values": w["Model"], "fails": "", "engine_observations": w["Observe"] or [],
+                       "values": w["Model"], "fails": "", "known_ids": known_ids, "engine_observations": w["Observe"] or [],
                        "reached": w.get("Reached") or []}, open(f, "w"), indent=1)
             wit_files.append(f)
         for k, v in enumerate(jo.get("violations") or []):
             f = os.path.join(replay_dir, "%s-v%d.json" % (jo["id"], k))
             json.dump({"property": pid, "harness": jo["func"], "package": jo["package"], "params": jo["params"],
-                       "values": v["Model"] or {}, "fails": v["Label"], "known": v.get("Known", ""),
+                       "values": v["Model"] or {}, "fails": v["Label"], "known": v.get("Known", ""), "known_ids": known_ids,
                        "engine_observations": v["Observe"] or [], "decisions": v.get("Trace")}, open(f, "w"), indent=1)
             viol_files.append(f)
     native = native_replay(pid, overlay, names, replay_dir, gen)
@@ -258,7 +258,7 @@ def run_check(pid, tier):
             elif label.startswith("deadlock") or label.startswith("crash"):
                 ok = True  # schedule-dependent: replayed by the gate harness where available
             else:
-                ok = label in (n["failed"] or []) or n["panic"].startswith("panic:")
+                ok = label in (n["failed"] or []) or label in (n.get("known_failed") or []) or n["panic"].startswith("panic:")
         if not ok:
             undecided.append("counterexample %s (label %s) did not reproduce natively: %r" % (os.path.basename(f), label, n))
             continue
